@@ -1,6 +1,6 @@
 """C18 — clock synchronisation gates every time step."""
 import simgen, oracles
-from props import simprops
+from props import simprops, c08
 
 HARNESS = ("simh",)
 TRUSTED = ["the Clock is a scripted recording clock (no wall-clock time); real clocks (SystemClock, AutoSystemClock) are not exercised"]
@@ -35,6 +35,10 @@ def tie(rep, tier, rng, model_ok):
                  [("clock", a, (1,), ORACLES, nontrivial), ("clock-multi", b, (1, 4), ORACLES, nontrivial),
                   ("clock-multi-origin", mo, (1, 2), ORACLES, lambda c, o: True)],
                  "multi-origin: the global scheduler (several actions) and one or two models have actions due at the same time: synchronize must be called once for that time, before any of them. scripted clock answers Synchronized / OutOfSync(3|60) at arbitrary call indices, tolerance none/5/50, random step/step_until partitions over self-scheduling and multi-model benches; the global log interleaves clock calls with handler entries. non-trivial = >=3 clock calls")
+    # requests made through a Scheduler handle on another thread while the main thread steps (shared with C08/C01): the
+    # clock calls of the observed run must be those of one of the two linearisations - never a time smaller than the last
+    rep.cov.setdefault("parts", {})
+    c08.race_part(rep, rng, model_ok, 40 if q else 400)
 
 
 def replay(rep, path, model_ok):
